@@ -104,7 +104,9 @@ pub trait BinaryInput {
         let compressed_len = self.read_var_u32()? as usize;
         let compressed = self.read_bytes(compressed_len)?;
         let mut deflater = DeflateDecoder::new(compressed);
-        let mut result = Vec::with_capacity(uncompressed_len);
+        // the length comes from the input: never reserve more than 64 KiB up front
+        let capacity = if uncompressed_len > 65536 { 65536 } else { uncompressed_len };
+        let mut result = Vec::with_capacity(capacity);
         deflater
             .read_to_end(&mut result)
             .map_err(|err| Error::DecompressionFailure(format!("{err}")))?;
